@@ -17,5 +17,16 @@ pub mod keccak;
 
 pub use contract_segmentation::NestedIntList;
 
+/// Verification hooks (only with `--cfg cairo_verif`): re-exports of the `pub` items of the private
+/// codec modules, so that each codec can be exercised in isolation.
+#[cfg(cairo_verif)]
+pub mod verif_exports {
+    pub use crate::contract_segmentation::{SegmentationError, compute_bytecode_segment_lengths};
+    pub use crate::felt252_serde::{
+        Felt252SerdeError, sierra_from_felt252s, sierra_to_felt252s, version_id_from_felt252s,
+    };
+    pub use crate::felt252_vec_compression::{compress, decompress};
+}
+
 #[cfg(test)]
 mod test_utils;
